@@ -424,6 +424,15 @@ def run(ck: Check, prog: Program) -> None:
         ck.ob('ERROR-CLASS', f'{r_.cls.name}: method failures are mapped to the protocol error classes the client raises', not bad)
         for rule, construct, line, msg in bad:
             ck.finding('ERROR-CLASS', r_.handle_rpc_method.qualname, construct, r_.dispatch.module.rel, line, msg)
+    # (e) the function is actually run, once: the bound method is invoked exactly once and, on the async side, what it returned is
+    #     awaited whenever it is awaitable (decided on the returned object)
+    from .dfacts import method_call_facts
+    for r_ in _roles:
+        _, mp = method_call_facts(dprog, _interp, r_)
+        bad = [p_ for p_ in mp if p_[0] == 'ONCE-INVOKE']
+        ck.ob('ONCE-INVOKE', f'{r_.cls.name}: the addressed function runs exactly once per accepted call', not bad)
+        for rule, construct, line, msg in bad:
+            ck.finding('ONCE-INVOKE', r_.handle_rpc_method.qualname, construct, r_.dispatch.module.rel, line, msg)
     for r_ in _roles:
         ck.functions.add(r_.dispatch.qualname)
         _, bp = batch_facts(dprog, r_)
